@@ -536,6 +536,12 @@ class ObservableResource(Resource, metaclass=abc.ABCMeta):
 
                 if response is None:
                     response = await self.render(pipe.request)
+                else:
+                    # The same message may have been handed to several
+                    # observations (ObservableResource.updated_state does);
+                    # token, remote, message ID and Observe number are set per
+                    # observation
+                    response = response.copy()
 
                 # If block2 were to happen here, we'd store the full response
                 # here, and pick out block2:0.
